@@ -39,6 +39,10 @@ CHECKS = {
   text="The real auth.Client -> http.Client -> retry.Transport stack (and remote.Repository pushes through it) runs against an in-process scripted base transport that records, per attempt, the bytes received, the send it belongs to, the policy's decision and monotonic times. Every script over 8 server-outcome classes up to length 4 (quick) / 5 (thorough) x 3 body kinds x MaxRetry 0-2 is enumerated; seeded random scripts, cancellation cases and repository pushes come on top; GenericPolicy.Retry / ExponentialBackoff are evaluated logically over a parameter grid with panics captured as witnesses.",
   note="The scripted transport stands in for net/http.Transport plus a registry (no sockets). Inside each enumerated class the concrete status, size and token-service script are seed-drawn. Cancellation verdicts come from the attempt counter and a goroutine dump, not from timing. Held on the executions observed.",
   tech="runtime monitoring: per-attempt byte/attempt/pause oracle over exhaustive and random server-behaviour scripts, logical policy sweep"),
+ "C06": dict(cat="exploration",
+  text="Sequential histories of 60-400 Push/Fetch/Exists/Tag/Resolve/Predecessors (plus Untag, Delete, Tags, SaveIndex on the OCI layout) run on memory, OCI and file stores under their documented options; every result is compared with a content-map plus tag-map model and the full observable state is compared after every refused or failed step. Concurrent histories (4-16 goroutines, few keys, unique values) are recorded at the client boundary and checked with porcupine per content key and per reference; every Fetch result is re-hashed; Predecessors is compared at quiescence; the same workload runs under the race detector.",
+  note="Concurrent-phase relaxations (statement is silent on results of overlapping writes): a Push linearized onto identical bytes may return nil or already-exists; an Untag linearized onto an untagged reference may return nil or not-found. Unjudged: a file-store name held by other bytes (only 'never wrong bytes'), the AutoGC cascade (C09), reopen (C08). Trusted: porcupine v1.3.0, the harness model, go-digest. One known finding (plain descriptor accepted although present via a named file) is listed.",
+  tech="runtime monitoring: model-based sequential oracle, porcupine linearizability check of recorded histories, hook jitter, Go race detector"),
 }
 
 PENDING_REASON = "check under construction in this session (not yet claimed); the technique applies"
